@@ -474,7 +474,8 @@ func Run(ctx *core.Ctx) {
 		"and v2 headers (every command x family byte, lengths 0..2048+, TLV tails; the address-less ones - PROXY with an unlisted family, command nibble >= 2 - through the API and through the full proxy), " +
 		"every TCP6 line of 22-24 bytes over the short address spellings with and without payload, 16% mutated (flip/delete/insert/truncate/prefix/garbage), followed by a payload; each sent in 1-4 writes " +
 		"over loopback TCP or net.Pipe to proxyproto.Listener and read back through Conn (RemoteAddr, LocalAddr, Read, Header) and through the exported ReadHeader; " +
-		"plus net.ParseIP/strconv.Atoi texts, stalled peers, headers trickled with pauses shorter than the header timeout (compared with Model.C08 readTimed), 4 concurrent callers and runs through the full proxy. " +
+		"plus forwarder.Listener in every stacking the product builds around the PROXY layer (TLS, read/write limits, traffic tracking) with the bandwidth limiter in debt (new connection with header + payload at once; peer stalling inside the header; compared with Model.C08 stackRead), " +
+		"net.ParseIP/strconv.Atoi texts, stalled peers, headers trickled with pauses shorter than the header timeout (compared with Model.C08 readTimed), 4 concurrent callers and runs through the full proxy. " +
 		"A connection case is non-trivial when the input carries a PROXY signature or the model does not answer 'refused'; an ip/atoi case when Go accepts the text. distinct = distinct canonical inputs (bytes, cuts, transport)")
 	for _, c := range core.LoadCorpus(ctx.Root, "C08") {
 		Replay(ctx, c)
@@ -597,9 +598,15 @@ func Run(ctx *core.Ctx) {
 	ptrickles := genProxyTrickleCases(ctx.Rng.Sub(), ctx.Quick())
 	ctx.Extra("trickled_headers", fmt.Sprintf("%d schedules against Listener/Conn (header timeout %d ms; one pause in time / too long, two pauses of 2/3 timeout, uniform trickles, complete just before / just after the deadline, refused headers, caller contexts; first call Read, Write, RemoteAddr, LocalAddr, Header, WriteTo, ReadFrom or four callers at once; *Conn over TCP and net.Pipe, behind connfu), %d through the full proxy; every wait bounded by the case's own deadline, a failure is filed when it shows %d times in a row",
 		len(trickles), trickleTimeoutMS, len(ptrickles), trickleTries))
+	lstacks := genLStackCases(ctx.Rng.Sub(), ctx.Quick())
+	ctx.Sample(lstacks[len(lstacks)-1])
+	ctx.Extra("listener_stackings", fmt.Sprintf("%d cases against forwarder.Listener (net.go Listen/Accept) with the PROXY protocol on: {plain, TLS} x {no limit, read limit, write limit, both; 4-16 KiB/s} x {traffic tracking off, on}, v1 and v2 headers; "+
+		"the listener-wide token buckets put into debt (burst of 4 MiB + 0.9-1.2 s of the rate moved by a load connection of the same listener) before a new connection sends header + payload at once, and another stalls inside its header; "+
+		"compared with Model.C08 stackRead (productStack cfg); a failure is filed when it shows %d times in a row", len(lstacks), lstackTries))
 	var pwg sync.WaitGroup
-	pwg.Add(1)
+	pwg.Add(2)
 	go func() { defer pwg.Done(); checkProxyTrickle(ctx, ptrickles) }()
+	go func() { defer pwg.Done(); parallel(lstacks, 16, func(c lstackCase) { checkLStack(ctx, c) }) }()
 	parallel(trickles, 32, func(c trickleCase) { checkTrickle(ctx, c) })
 	pwg.Wait()
 
@@ -652,6 +659,10 @@ func Replay(ctx *core.Ctx, raw json.RawMessage) {
 		var c trickleCase
 		json.Unmarshal(raw, &c)
 		checkTrickle(ctx, c)
+	case "lstack":
+		var c lstackCase
+		json.Unmarshal(raw, &c)
+		checkLStack(ctx, c)
 	case "ptrickle":
 		var c ptrickleCase
 		json.Unmarshal(raw, &c)
